@@ -128,6 +128,14 @@ inductive Label
   | done              -- the thread has no step left (stutter)
 deriving DecidableEq, Repr
 
+/-- An entry of the ghost *serial order* (`Cfg.lin`): the instant at which an operation takes
+    effect.  `upd o`: `_value` now is `o` (worker `set_value` or controller write); `read r`: a read of
+    the attribute database (to_HAP with value / get_value) fixes the object `r` it is going to show. -/
+inductive LinEv
+  | upd (o : Obj)
+  | read (r : Obj)
+deriving DecidableEq, Repr
+
 structure Cfg where
   -- shared
   value : Obj
@@ -137,6 +145,9 @@ structure Cfg where
   queue : List Obj
   /-- ghost: every object ever handed to the loop, in order (no step reads it) -/
   enq : List Obj
+  /-- ghost: the serial order — every update and every value-showing read is logged by that step
+      of its own operation at which it takes effect (no step reads it) -/
+  lin : List LinEv
   -- loop thread
   subs : List Conn
   pending : Conn → Option Obj
@@ -184,7 +195,7 @@ def ctrlWrite (s : Cfg) (w : Conn) (v : Obj) : Cfg :=
     fun x => if changed && decide (x ∈ s.subs) && decide (x ≠ w) then some v else s.pending x
   let tim1 : Conn → Bool :=
     fun x => if changed && decide (x ∈ s.subs) && decide (x ≠ w) then true else s.timer x
-  { s with value := v, cache := false, cacheV := none,
+  { s with value := v, cache := false, cacheV := none, lin := s.lin ++ [.upd v],
            pending := fun x =>
              if x = w then
                (match pend1 w with
@@ -231,12 +242,14 @@ def stepLoop (fix : Variant) (s : Cfg) : Cfg × Label :=
   | .hCheck =>
     match s.cacheV with
     | some r =>
-      if fix.single then (ret s (.rep r), .rd .cacheV)     -- `return cached` (the object tested)
+      if fix.single then (ret { s with lin := s.lin ++ [.read r] } (.rep r), .rd .cacheV)
+                                                           -- `return cached` (the object tested)
       else ({ s with lpc := .hRet }, .rd .cacheV)          -- l.413 loads the slot again
     | none => ({ s with lpc := .hRead }, .rd .cacheV)
   | .hRet =>
-    (ret s (match s.cacheV with | some r => .rep r | none => .nothing), .rd .cacheV)
-  | .hRead => ({ s with lpc := .hStore s.value }, .rd .value)
+    (ret { s with lin := s.lin ++ (match s.cacheV with | some r => [.read r] | none => []) }
+       (match s.cacheV with | some r => .rep r | none => .nothing), .rd .cacheV)
+  | .hRead => ({ s with lpc := .hStore s.value, lin := s.lin ++ [.read s.value] }, .rd .value)
   | .hStore r =>
     if fix.recheck then ({ s with cacheV := some r, lpc := .hRecheck r }, .wr .cacheV)
     else (ret { s with cacheV := some r } (.rep r), .wr .cacheV)
@@ -249,7 +262,7 @@ def stepLoop (fix : Variant) (s : Cfg) : Cfg × Label :=
     else ({ s with lpc := .nStore }, .rd .cache)
   | .nRet => (ret s (if s.cache then .repNV else .nothing), .rd .cache)
   | .nStore => (ret { s with cache := true } .repNV, .wr .cache)
-  | .gRead => (ret s (.value s.value), .rd .value)
+  | .gRead => (ret { s with lin := s.lin ++ [.read s.value] } (.value s.value), .rd .value)
   | .sKey c => ({ s with topicKey := true, subs := [c], lpc := .idle }, .wr .topicKey)
   | .uKey => ({ s with topicKey := false, subs := [], lpc := .idle }, .wr .topicKey)
   | .dLoop =>
@@ -271,7 +284,7 @@ def stepWorker (s : Cfg) : Cfg × Label :=
       if u.valid then
         ({ s with wups := rest, wpc := .wAssign u.obj (decide (s.value.val ≠ u.obj.val)) }, .tau)
       else ({ s with wups := rest }, .tau)
-  | .wAssign o ch => ({ s with value := o, wpc := .wClear0 o ch }, .wr .value)
+  | .wAssign o ch => ({ s with value := o, lin := s.lin ++ [.upd o], wpc := .wClear0 o ch }, .wr .value)
   | .wClear0 o ch => ({ s with cache := false, wpc := .wClear1 o ch }, .wr .cache)
   | .wClear1 o ch => ({ s with cacheV := none, wpc := if ch then .wTopic o else .idle }, .wr .cacheV)
   | .wTopic d =>
@@ -353,10 +366,71 @@ def changes (v : Obj) : List Update → List Obj
       (if v.val ≠ u.obj.val then [u.obj] else []) ++ changes u.obj us
     else changes v us
 
+/-! ### The serial order (ghost `lin`) read as the history of one sequential register -/
+
+/-- Execute a serial order on a single register holding `v`: an update overwrites it, a read must
+    show exactly what it holds.  `none`: the order is not a legal sequential history. -/
+def replay : Obj → List LinEv → Option Obj
+  | v, [] => some v
+  | _, .upd o :: l => replay o l
+  | v, .read r :: l => if r = v then replay v l else none
+
+def readsOf : List LinEv → List Obj
+  | [] => []
+  | .read r :: l => r :: readsOf l
+  | .upd _ :: l => readsOf l
+
+def updsOf : List LinEv → List Obj
+  | [] => []
+  | .upd o :: l => o :: updsOf l
+  | .read _ :: l => updsOf l
+
+/-- The value objects shown by the recorded results, in order (value-free and empty answers show none). -/
+def resObjs : List Res → List Obj
+  | [] => []
+  | .rep v :: l => v :: resObjs l
+  | .value v :: l => v :: resObjs l
+  | .repNV :: l => resObjs l
+  | .nothing :: l => resObjs l
+
+/-- The read in progress that has already fixed what it will show (between `get_value` and the
+    return of `to_HAP`). -/
+def inflight (s : Cfg) : List Obj :=
+  match s.lpc with
+  | .hStore r => [r]
+  | .hRecheck r => [r]
+  | .hDrop r => [r]
+  | _ => []
+
+/-- The objects of the accepted updates of a worker program, in order. -/
+def validObjs : List Update → List Obj
+  | [] => []
+  | u :: us => if u.valid then u.obj :: validObjs us else validObjs us
+
+/-- The accepted updates the worker has not yet made effective. -/
+def owedUpd (s : Cfg) : List Obj :=
+  (match s.wpc with
+   | .wAssign o _ => [o]
+   | _ => []) ++ validObjs s.wups
+
+/-- **The property's quantifier**: the worker's whole update runs at one step boundary of the loop
+    thread — along the schedule the loop thread steps only while the worker is between updates.
+    (Arbitrary merges are finer; the no-stale and event theorems hold for all of them, serial
+    equivalence of reads IN PROGRESS does not: see C20_fine_grained_not_serializable.) -/
+def AtomicUpd (fix : Variant) : List Bool → Cfg → Prop
+  | [], _ => True
+  | b :: bs, s => (b = true → s.wpc = .idle) ∧ AtomicUpd fix bs (step fix b s)
+
+instance decAtomicUpd (fix : Variant) : (bits : List Bool) → (s : Cfg) → Decidable (AtomicUpd fix bits s)
+  | [], _ => isTrue trivial
+  | b :: bs, s => by
+    unfold AtomicUpd
+    exact @instDecidableAnd _ _ inferInstance (decAtomicUpd fix bs _)
+
 /-- A start configuration: both threads idle, caches empty. -/
 def init (v : Obj) (lops : List LoopOp) (wups : List Update) (subs : List Conn) : Cfg :=
   { value := v, cacheV := none, cache := false, topicKey := !subs.isEmpty, queue := [], enq := [],
-    subs := subs, pending := fun _ => none, timer := fun _ => false, delivered := fun _ => [],
+    lin := [], subs := subs, pending := fun _ => none, timer := fun _ => false, delivered := fun _ => [],
     knows := fun _ => v, results := [],
     lpc := .idle, lops := lops, wpc := .idle, wups := wups }
 
